@@ -45,7 +45,11 @@ ReqBegin(c, kind, s, sm) ==
       THEN /\ ing' = [ing EXCEPT ![c] = @ \cup {s}]
            /\ UNCHANGED <<act, maybe, owed>>
       ELSE \* from the moment a deactivate / ident is being processed nothing is owed in its scope any more
-           /\ owed' = [owed EXCEPT ![c] = IF kind = "ident" \/ s = "." THEN {} ELSE {x \in @ : ~(x.p = s \/ x.pm = s)}]
+           \* (a whole-node deactivate ends the whole-node scope only: what a module / parameter scope of the same
+           \*  connection is owed stays owed)
+           /\ owed' = [owed EXCEPT ![c] = IF kind = "ident" THEN {}
+                                          ELSE IF s = "." THEN {x \in @ : \E s2 \in act[c] \ {"."} : InScope(x.p, x.pm, s2)}
+                                          ELSE {x \in @ : ~(x.p = s \/ x.pm = s)}]
            /\ UNCHANGED <<act, ing, maybe>>
    /\ UNCHANGED <<idx, cur, held, devs>>
 
@@ -74,9 +78,11 @@ Reply(c, kind, s, sm, params) ==            \* params: the exported parameters i
            /\ act' = [act EXCEPT ![c] = @ \cup {s}] /\ ing' = [ing EXCEPT ![c] = @ \ {s}]
            /\ maybe' = [maybe EXCEPT ![c] = @ \ {s}]
       ELSE IF kind = "deactivate"
-      THEN \* the matching scope ends; what happens to more specific scopes of the same connection is not
-           \* stated by the property: they stay entitled but nothing is owed to them any more
-           /\ LET sub == IF s = "." THEN act[c] \ {s} ELSE (act[c] \cap params) \ {s} IN
+      THEN \* the matching scope ends.  A MODULE deactivate also sweeps away the parameter scopes of that module
+           \* (the code says so explicitly; the property is silent: they stay entitled, nothing is owed to them any
+           \* more).  A WHOLE-NODE deactivate ends the whole-node scope only: module and parameter scopes of the
+           \* connection have not seen their matching deactivate and go on.
+           /\ LET sub == IF s = "." THEN {} ELSE (act[c] \cap params) \ {s} IN
                 /\ act' = [act EXCEPT ![c] = @ \ ({s} \cup sub)]
                 /\ maybe' = [maybe EXCEPT ![c] = (@ \ {s}) \cup sub]
            /\ UNCHANGED ing
